@@ -603,14 +603,15 @@ theorem parseDoc_raw {m : Nat} {st : Bytes} {w : JVal} {rest : Bytes} (h : parse
 
 /-! ## glue for the property theorems -/
 
-theorem at_of_parseDoc {s : Bytes} {d : JVal} (h : parseDoc s = some d) : ∃ r, At (s.length + 1) d s r := by
+theorem at_of_parseDoc {s : Bytes} {d : JVal} (h : parseDoc s = some d) (hk : keysWF d = true) :
+    ∃ r, At (s.length + 1) d s r := by
   unfold parseDoc at h
   split at h
   · rename_i v r hp
     split at h
     · rename_i he
       cases h
-      exact ⟨r, s.length + 1, Nat.le_refl _, hp, numFollow_of_skipWs_nil (by simpa using he)⟩
+      exact ⟨r, s.length + 1, Nat.le_refl _, hp, numFollow_of_skipWs_nil (by simpa using he), hk⟩
     · cases h
   · cases h
 
